@@ -457,3 +457,11 @@ def c06_7(R):
             R.ok("recovered=>episode-closed", oa.name, "on_recovered is followed by phase = CountingDuplicates on every path")
         else:
             R.fail([oa.name, "on_recovered-without(phase=CountingDuplicates)"], "the congestion controller is told the recovery is over but the recovery phase is kept: every later ACK 'recovers' again and new data stays governed by the recovery window", where=t.where(), instance="recovered=>episode-closed")
+
+
+@rule("C06.8", ["C06", "C01", "C05", "C14"], ["E4"], "segment accessors hand out the field they are named after",
+      "Segment::is_mtu_probe, SegmentForSending::{is_delivered, is_lost, is_expired, has_sacks_after_it, payload_size, payload_offset, seq_nr}, Segments::{sack_depth, total_len_bytes} and "
+      "Recovering::{recovery_point, total_retransmitted_segments} return exactly the field path they returned on the reviewed tree (table frozen in engine/pinned_fns.json).")
+def c06_8(R):
+    n = check_getters(R, ("stream_tx_segments::", "recovery::"))
+    R.floor("segment / recovery accessors", n, 10)
